@@ -3,6 +3,7 @@ CONSTANTS
   TruncateBytesThenDecode = FALSE
   StopTimerNeedsFloat = FALSE
   RecorderConversionPartial = TRUE
+  ResultBoundAfterValidationOnly = FALSE
 INVARIANT NonInterference
 INVARIANT ObserversTotal
 INVARIANT StatsOnce
